@@ -109,7 +109,16 @@ def simplify(case):
 
 
 # ------------------------------------------------------------------------------------------------ helpers
+_POOL_R = np.array([0.0, 0.0, 1.0, -1.0, 2.0])
+_POOL_C = np.array([0.0, 0.0, 1.0, -1.0, 1j, -1j, 1 + 1j, 1 - 1j, 2.0, 3j])
+
+
 def rv(rng, shape, cplx):
+    if rng.random() < 0.15:
+        # structured data: exact zeros, zero vectors, and complex vectors whose *unconjugated* square sum vanishes although they
+        # are not zero ([1, 1j, 0], [1+1j, 1-1j]): bilinear and sesquilinear forms differ on those
+        v = rng.choice(_POOL_C if cplx else _POOL_R, size=shape)
+        return v.astype(complex) if cplx else v.astype(float)
     v = rng.uniform(-1, 1, shape)
     if cplx:
         v = v + 1j * rng.uniform(-1, 1, shape)
